@@ -110,7 +110,7 @@ Proof.
     all: try (destruct f as [| |h|ok|ok]); cbn [fstep] in H; unfold callback in H;
       brk2 H; inversion H; subst s'; fields; now apply nth_upd_neq.
   - unfold bstep in H. destruct (nth_error (fl s) b) as [pc|] eqn:Hn; [|discriminate].
-    destruct pc as [|cm last|h last|h|h|h| |f last|last|f|]; try discriminate.
+    destruct pc as [|cm last|h last|h|h|h| |f last|last| |f|]; try discriminate.
     all: try (destruct f as [| |h|ok|ok]); cbn [fstep] in H; unfold callback in H;
       brk2 H; inversion H; subst s'; fields; reflexivity.
   - brk2 H. inversion H; reflexivity.
@@ -120,7 +120,7 @@ Qed.
 Lemma c_in_zero_hand p : c_in p = 0 -> chand_en p = [].
 Proof. destruct p as [| | | |[]| | |]; cbn; intros; try reflexivity; lia. Qed.
 Lemma b_in_zero_hand p : b_in p = 0 -> bhand_en p = [].
-Proof. destruct p as [| | | | | | |[]| |[]|]; cbn; intros; try reflexivity; lia. Qed.
+Proof. destruct p as [| | | | | | |[]| | |[]|]; cbn; intros; try reflexivity; lia. Qed.
 Lemma c_send_zero_hand p : c_send p = 0 -> chand_un p = [].
 Proof. destruct p; cbn; intros; try reflexivity; lia. Qed.
 Lemma b_gd_zero_hand p : b_gd p = 0 -> bhand_un p = [].
@@ -374,13 +374,13 @@ Qed.
 Lemma sumz_le {A} (f g : A -> Z) l : (forall x, f x <= g x) -> sumz f l <= sumz g l.
 Proof. intros H; induction l as [|x l IH]; cbn; [lia | specialize (H x); lia]. Qed.
 
-Definition loop_alive (p : bpc) : Prop := p <> BDead /\ forall f, p <> BExit f.
+Definition loop_alive (p : bpc) : Prop := p <> BDead /\ p <> BStop /\ forall f, p <> BExit f.
 
 Lemma restart_safe_l cfg n sched :
   let s := run cfg (init n) sched in
   (cont s <> [] ->
      guarded s = true \/
-     exists b f, nth_error (fl s) b = Some (BExit f) /\ (f = FEnter \/ f = FRemove)) /\
+     exists b p, nth_error (fl s) b = Some p /\ (p = BStop \/ p = BExit FEnter \/ p = BExit FRemove)) /\
   (guarded s = true -> exists b p, nth_error (fl s) b = Some p /\ loop_alive p) /\
   (guarded s = false ->
      inflight s = 0 /\ cmd s = None /\
@@ -392,11 +392,11 @@ Proof.
   - intros Hc. destruct (i_owner _ _ HI) as [H|[H|H]].
     + destruct (cont s); [congruence | cbn in H; lia].
     + left. destruct (guarded s); [reflexivity | cbn in H; lia].
-    + right. destruct (sumz_pos_ex _ _ H) as (b & p & Hb & Hp). exists b.
-      destruct p as [| | | | | | | | |[]|]; cbn in Hp; try lia; eauto.
+    + right. destruct (sumz_pos_ex _ _ H) as (b & p & Hb & Hp). exists b, p. split; [exact Hb|].
+      destruct p as [| | | | | | | | | |[]|]; cbn in Hp; try lia; auto.
   - intros Hg. pose proof (i_guard _ _ HI) as H. rewrite Hg in H. cbn in H.
     destruct (sumz_pos_ex b_live (fl s)) as (b & p & Hb & Hp); [lia|].
-    exists b, p. split; [exact Hb|]. destruct p; cbn in Hp; try lia; split; intros; discriminate.
+    exists b, p. split; [exact Hb|]. destruct p; cbn in Hp; try lia; repeat split; intros; discriminate.
   - intros Hg. pose proof (i_idle _ _ HI) as Hi. rewrite Hg in Hi. cbn in Hi.
     assert (Hinf : inflight s = 0) by lia.
     pose proof (i_infl _ _ HI) as H1. pose proof (i_conf _ _ HI) as H2.
